@@ -730,6 +730,6 @@ pub fn fonts() -> Vec<Syn> {
         fdselect_fmt: 0,
         charset: CharsetSpec::Format0((1..nbig as u16).collect()),
     };
-    out.push(with_bounds(wrap("syn/cff-subrs-430", "cff", "CFF ", cffw::build_cff(&spec), nbig), bounds));
+    out.push(with_bounds(wrap("syn/cff-subrs-380", "cff", "CFF ", cffw::build_cff(&spec), nbig), bounds));
     out
 }
